@@ -10,4 +10,8 @@ PROP = {'gen_tables': ['FrontEnds'],
                  'counting itself',
                  'observer leaves are read after each call: the order of observer writes relative to other events is not compared (io leaves '
                  'carry the ordering)',
-                 'Core.With(a).With(b) is modelled as one push-down of a ++ b (same per-leaf marshal order, same emissions)']}
+                 'Core.With(a).With(b) is modelled as one push-down of a ++ b (same per-leaf marshal order, same emissions)'],
+ 'technique': 'Lean 4: structural induction over the core algebra (tee/increase-level/hooks/sampler/lazy/with over arbitrary enablers): delivered leaves = open paths; front-end guard table regenerated from source; tie: correspondence on random core trees × levels × front ends',
+ 'level_text': 'leaf_delivery_iff, hook_fires_iff, disabled_no_effects and levelOf_min are proved for every core tree of the model; the front-end obligations are decided over the regenerated FrontEnds table.',
+ 'level_note': 'Sampler decisions are an oracle bit here (counted under C11); Enabled-completeness is partial (known findings F6/F6b).',
+}
